@@ -327,8 +327,46 @@ def w_wide(ks):
     return out
 
 
+def w_layout_init(_task):
+    """field initialisers given as ready-made constants of another width: the field holds the unique value of its own shape congruent to the
+    constant's value (the constant's VALUE counts, as for any integer), in data.Const, Signal(layout, init=...) and memory rows alike"""
+    from amaranth.hdl import Const, Signal, Shape, signed, unsigned
+    from amaranth.hdl._mem import MemoryData
+    from amaranth.lib import data
+    out = {"cov": {"evaluations": 0, "distinct_nontrivial": 0, "layout_field_initialisers": 0}, "samples": [], "violations": []}
+    for fa, fb in ((unsigned(4), signed(4)), (signed(3), unsigned(2)), (unsigned(1), signed(1))):
+        lay = data.StructLayout({"a": fa, "b": fb})
+        wa, wb = Shape.cast(fa).width, Shape.cast(fb).width
+
+        def wrap(v, sh):
+            sh = Shape.cast(sh)
+            v &= (1 << sh.width) - 1
+            return v - (1 << sh.width) if sh.signed and v >> (sh.width - 1) else v
+        for cw in range(1, 7):
+            for csg in (False, True):
+                for cv in (range(-(1 << (cw - 1)), 1 << (cw - 1)) if csg else range(1 << cw)):
+                    c = Const(cv, Shape(cw, csg))
+                    want_a, want_b = wrap(cv, fa), wrap(cv, fb)
+                    want_bits = (want_a & ((1 << wa) - 1)) | ((want_b & ((1 << wb) - 1)) << wa)
+                    out["cov"]["layout_field_initialisers"] += 1
+                    out["cov"]["evaluations"] += 3
+                    out["cov"]["distinct_nontrivial"] += 1
+                    try:
+                        got = {"const": data.Const(lay, 0).__class__ and lay.const({"a": c, "b": c}).as_bits(),
+                               "signal": Signal(lay, init={"a": c, "b": c}).as_value().init,
+                               "memory": MemoryData(shape=lay, depth=1, init=[{"a": c, "b": c}])._init._raw[0]}
+                    except Exception as ex:
+                        got = {"raises": type(ex).__name__}
+                    for how, g in got.items():
+                        if g != want_bits:
+                            _viol(out, f"layout-init:{how}:{fa!r},{fb!r}:C({cv},{'s' if csg else 'u'}{cw})",
+                                  f"{how} of struct(a:{fa!r}, b:{fb!r}) with both fields initialised by Const({cv}, {'signed' if csg else 'unsigned'}({cw})): bits {g!r}, "
+                                  f"want {want_bits:#x} (a={want_a}, b={want_b})", {"kind": "layoutinit"})
+    return out
+
+
 WORKERS = {"ranges": w_ranges, "const": w_const, "rangeinit": w_range_init, "enums": w_enums,
-           "constcast": w_constcast, "bits": w_bits, "wide": w_wide}
+           "constcast": w_constcast, "bits": w_bits, "wide": w_wide, "layoutinit": w_layout_init}
 
 
 def _dispatch(t):
@@ -371,6 +409,7 @@ def run(rep):
             tasks.append(("bits", (c - 3, c + 4)))
     for ch in chunks(range(2, K), 8):
         tasks.append(("wide", list(ch)))
+    tasks.append(("layoutinit", None))
     tasks = rotate(tasks, rep.seed)
     per_kind = {}
     for part in pmap(_dispatch_tagged, tasks, rep.procs):
@@ -414,6 +453,8 @@ def replay(payload):
             return tuple(tup(x) if isinstance(x, list) else x for x in t)
         out = w_constcast([tup(payload["term"])])
         return [v["what"] for v in out["violations"]]
+    if kind == "layoutinit":
+        return [v["what"] for v in w_layout_init(None)["violations"]][:5]
     if kind == "wide":
         return [v["what"] for v in w_wide([payload["k"]])["violations"]]
     if kind in ("ceil_log2", "bits_for", "exact_log2"):
